@@ -269,6 +269,15 @@ func (i *Interface) InsertValue(key string, attribute string, value interface{})
 func (i *Interface) Put(r record.Record) (err error) {
 	// get record or only database
 	var db *Controller
+	if r.DatabaseName() == getDBFromKey {
+		// A record without a database name has no database. The name must not reach
+		// getMeta empty, as that would take the database name from the record key.
+		_, err = getController(r.DatabaseName())
+		if err == nil {
+			err = errors.New("record has no database name")
+		}
+		return err
+	}
 	if !i.options.HasAllPermissions() {
 		_, db, err = i.getMeta(r.DatabaseName(), r.DatabaseKey(), true)
 		if err != nil && !errors.Is(err, ErrNotFound) {
@@ -307,6 +316,15 @@ func (i *Interface) Put(r record.Record) (err error) {
 func (i *Interface) PutNew(r record.Record) (err error) {
 	// get record or only database
 	var db *Controller
+	if r.DatabaseName() == getDBFromKey {
+		// A record without a database name has no database. The name must not reach
+		// getMeta empty, as that would take the database name from the record key.
+		_, err = getController(r.DatabaseName())
+		if err == nil {
+			err = errors.New("record has no database name")
+		}
+		return err
+	}
 	if !i.options.HasAllPermissions() {
 		_, db, err = i.getMeta(r.DatabaseName(), r.DatabaseKey(), true)
 		if err != nil && !errors.Is(err, ErrNotFound) {
